@@ -30,7 +30,7 @@ FILE_CHECKS = [
     (r"src/MSSMNoFV/gm2_uncertainty\.cpp", ["C18", "C07", "C06", "C15"]),
     (r"src/MSSMNoFV/MSSMNoFV_onshell_mass_eigenstates\.cpp", ["C04", "C06", "C03"]),
     (r"src/MSSMNoFV/MSSMNoFV_onshell\.cpp", ["C05", "C16", "C07", "C13"]),
-    (r"src/MSSMNoFV/MSSMNoFV_onshell_(physical|problems|soft_parameters|susy_parameters)\.cpp", ["C04", "C05", "C16", "C17"]),
+    (r"src/MSSMNoFV/MSSMNoFV_onshell_(physical|problems|soft_parameters|susy_parameters)\.cpp", ["C04", "C05", "C13", "C16", "C17"]),
     (r"src/THDM/THDM\.cpp", ["C08", "C09", "C03", "C16", "C20"]),
     (r"src/THDM/THDM_mass_eigenstates\.cpp|src/THDM/THDM_parameters\.cpp", ["C08", "C10", "C09", "C16"]),
     (r"src/THDM/THDM_problems\.cpp", ["C16", "C17", "C08"]),
